@@ -5209,27 +5209,51 @@ func checkMarkEveryEmptiedRoot(p *Program, r *Report, rule string, name string) 
 		r.MissingAnchor(rule, name, "the function that applies a block's deletions to the root infos not found")
 		return
 	}
+	isMark := func(in ssa.Instruction) bool {
+		st, ok := in.(*ssa.Store)
+		if !ok {
+			return false
+		}
+		c, isConst := st.Val.(*ssa.Const)
+		if !isConst || c.Value == nil || c.Value.String() != "true" {
+			return false
+		}
+		fa, ok := st.Addr.(*ssa.FieldAddr)
+		if !ok {
+			return false
+		}
+		_, viaElem := fa.X.(*ssa.IndexAddr)
+		return viaElem
+	}
+	// helpers of the package that do the marking (the inner loop extracted)
+	marker := map[*ssa.Function]bool{}
+	for _, g := range p.Funcs {
+		if g == fn || g.Blocks == nil {
+			continue
+		}
+		for _, b := range g.Blocks {
+			for _, in := range b.Instrs {
+				if isMark(in) {
+					marker[g] = true
+				}
+			}
+		}
+	}
 	n := 0
 	for _, b := range fn.Blocks {
 		for _, in := range b.Instrs {
-			st, ok := in.(*ssa.Store)
-			if !ok {
-				continue
+			site := isMark(in)
+			if c, ok := in.(*ssa.Call); ok && !site {
+				if sc := c.Common().StaticCallee(); sc != nil && marker[sc] {
+					site = true
+				}
 			}
-			c, isConst := st.Val.(*ssa.Const)
-			if !isConst || c.Value == nil || c.Value.String() != "true" {
-				continue
-			}
-			fa, ok := st.Addr.(*ssa.FieldAddr)
-			if !ok {
-				continue
-			}
-			if _, viaElem := fa.X.(*ssa.IndexAddr); !viaElem {
+			if !site {
 				continue
 			}
 			h := innermostLoopHeader(b)
 			if h == nil {
-				// the store sits on a path that leaves a loop (mark, then break): that is an early exit
+				// the site is on a path that leaves a loop (mark, then break): that is an early exit
 				for q := b; q != nil && h == nil; q = q.Idom() {
 					if hq := innermostLoopHeader(q); hq != nil && hq.Dominates(b) {
 						h = hq
@@ -5239,10 +5263,10 @@ func checkMarkEveryEmptiedRoot(p *Program, r *Report, rule string, name string) 
 					continue
 				}
 				n++
-				r.Violate(rule, fmt.Sprintf("%s/mark#%d/no-early-exit", name, n), posOf(p, st), "the store that marks a root as emptied sits on a path that leaves the loop around it: after the first hit no other root of the block is marked, and the additions that later overwrite an unmarked empty root are not traced back", "in "+name)
+				r.Violate(rule, fmt.Sprintf("%s/mark#%d/no-early-exit", name, n), posOf(p, in), "the store that marks a root as emptied sits on a path that leaves the loop around it: after the first hit no other root of the block is marked, and the additions that later overwrite an unmarked empty root are not traced back", "in "+name)
 				continue
 			}
-			// outermost loop containing the store
+			// outermost loop containing the site
 			outer := h
 			for _, cand := range fn.Blocks {
 				if cand != outer && len(latches(cand)) > 0 && naturalLoop(cand)[outer] {
@@ -5259,7 +5283,6 @@ func checkMarkEveryEmptiedRoot(p *Program, r *Report, rule string, name string) 
 				}
 				for _, s := range blk.Succs {
 					if !loop[s] {
-						// leaving through a return with an error or a panic is not "going on with fewer marks"
 						if len(s.Instrs) > 0 {
 							if _, isPanic := s.Instrs[len(s.Instrs)-1].(*ssa.Panic); isPanic {
 								continue
@@ -5272,11 +5295,11 @@ func checkMarkEveryEmptiedRoot(p *Program, r *Report, rule string, name string) 
 			if early != nil {
 				r.Violate(rule, key, posOf(p, early), "the outermost loop around the store that marks a root as emptied can be left from inside its body: a block that empties several trees marks only the roots met before the exit, and the additions that later overwrite an unmarked empty root are not traced back", "in "+name)
 			} else {
-				r.Discharge(rule, key, posOf(p, st), "the outermost loop around the marking store is left only through its own bound", true)
+				r.Discharge(rule, key, posOf(p, in), "the outermost loop around the marking step is left only through its own bound", true)
 			}
 		}
 	}
-	r.Floor(rule, "stores that mark a root as emptied", n, 1)
+	r.Floor(rule, "steps that mark a root as emptied", n, 1)
 }
 
 // ---------------------------------------------------------------------------
